@@ -4,6 +4,7 @@ package props
 
 import (
 	"fmt"
+	"strings"
 	"testing"
 
 	"github.com/runreveal/pql/parser"
@@ -315,6 +316,97 @@ func TestC11Soups(t *testing.T) {
 	enumSoups(soupOps, env.Pick(3, 4), env.Shard, env.NShards, func(soup string) { one(soup, soupOpContexts) })
 	nw := enumDictionary(env.Pick(3, 4), env.Shard, env.NShards, func(src string) { one(src, []string{"%s"}) })
 	st.Note("plus the source dictionary: each of the %d words found as string literals in the parser and compiler sources followed by every sequence of <= %d tokens over %q, spliced into %q", nw, env.Pick(3, 4), dictTail, dictContexts)
+}
+
+// TestC11Huge: statements of tens of thousands to millions of nodes: every
+// node is visited exactly once, parents first, and Walk returns.
+func TestC11Huge(t *testing.T) {
+	st := harn.NewStats(env, "huge")
+	defer st.Flush()
+	sizes := []int{1<<16 + 3, 1<<20 + 7}
+	if env.Thorough() {
+		sizes = append(sizes, 1<<21+1, 1<<22+5)
+	}
+	st.SetExhaustive(fmt.Sprintf("one statement with an in-list, one with an operator chain and one with an argument list of each size in %v", sizes))
+	for i, n := range sizes {
+		for k, shape := range []string{"in-list", "operator-chain", "call-arguments"} {
+			if (i*3+k)%env.NShards != env.Shard {
+				continue
+			}
+			var sb strings.Builder
+			switch shape {
+			case "in-list":
+				sb.WriteString("Events | where code in (0")
+				for j := 1; j < n; j++ {
+					sb.WriteString(",7")
+				}
+				sb.WriteString(")")
+			case "operator-chain":
+				sb.WriteString("T | where a")
+				for j := 1; j < n; j++ {
+					sb.WriteString("+b")
+				}
+			default:
+				sb.WriteString("T | extend s = strcat(a")
+				for j := 1; j < n; j++ {
+					sb.WriteString(",b")
+				}
+				sb.WriteString(")")
+			}
+			src := sb.String()
+			stmts, err := parser.Parse(src)
+			if err != nil {
+				continue // C07 / C12 speak about rejection of large programs
+			}
+			st.Eval()
+			st.NonTrivialExact(1)
+			st.Class(shape)
+			msg := ""
+			for _, stmt := range stmts {
+				all := astx.All(stmt)
+				want := 0
+				for _, in := range all {
+					if walkRequired(in) {
+						want++
+					}
+				}
+				seen := make(map[parser.Node]bool, len(all))
+				pan := ""
+				func() {
+					defer func() {
+						if r := recover(); r != nil {
+							pan = fmt.Sprint(r)
+						}
+					}()
+					parser.Walk(stmt, func(nd parser.Node) bool {
+						if astx.IsNilNode(nd) {
+							msg = "the visitor was called with a nil node"
+						} else if seen[nd] {
+							msg = fmt.Sprintf("%T visited twice", nd)
+						}
+						seen[nd] = true
+						return true
+					})
+				}()
+				if pan != "" {
+					msg = "Walk panics: " + trunc(pan, 200)
+				}
+				got := 0
+				for _, in := range all {
+					if walkRequired(in) && seen[in.Node] {
+						got++
+					}
+				}
+				if msg == "" && got != want {
+					msg = fmt.Sprintf("Walk visits %d of the %d identifiers and expressions", got, want)
+				}
+			}
+			if msg != "" {
+				st.Violation(t, "C11", "walk", walkCase{Src: "", SrcQ: ""}, "a %s statement with %d elements (%d bytes): %s", shape, n, len(src), msg)
+				return
+			}
+		}
+	}
 }
 
 // TestC11Large: traversal of large flat programs.
